@@ -52,6 +52,7 @@ def run(ctx: Ctx):
     no_memoised_readers(ctx)
     dataset_files_in_order(ctx)
     directory_listings_sorted(ctx)
+    round_trip_conventions(ctx)
     hparams_keep_policy(ctx)
     # ---------------- a: npz
     sv = ctx.repo.get_function(DU, "save_tensordict_to_npz")
@@ -491,6 +492,95 @@ def directory_listings_sorted(ctx: Ctx):
                        construct=f"{mi.relpath}:listing-order:{ast.unparse(c)[:40]}")
     if n < 2:
         raise AnalysisError(f"only {n} directory listings found in rl4co/envs and rl4co/data (FJSP and JSSP file generators have one each)")
+
+
+def round_trip_conventions(ctx: Ctx):
+    """C19.i three conventions that a writer / restorer shares with its reader.
+    (1) FJSP text files are read back in the lexicographic order of their names (C19.h): the writer puts the instance number
+        first and ZERO-PADS it (rjust / zfill / a 0Nd format), otherwise `10_...` sorts in front of `2_...`.
+    (2) `REINFORCE.set_decode_type_multistart` runs again when a POMO-family model is rebuilt from a checkpoint whose pickled
+        policy already carries `multistart_*` decode types: the prefix is only added when it is not there yet.
+    (3) `RL4COEnvBase.dataset(filename=...)` uses an explicit file name as given (callers such as tasks/eval.py pass the path
+        that generate_dataset returned); joining it with data_dir again points to a file that does not exist, and the loader's
+        FileNotFoundError fallback silently substitutes freshly generated instances."""
+    # (1)
+    fw = ctx.repo.get_function("rl4co/envs/scheduling/fjsp/parser.py", "write_one")
+    ctx.fn(fw)
+    names = [st.value for st in ast.walk(fw.node) if isinstance(st, ast.Assign) and isinstance(st.value, ast.JoinedStr) and any(isinstance(v, ast.FormattedValue) for v in st.value.values)
+             and any(isinstance(v, ast.Constant) and ".txt" in str(v.value) for v in st.value.values)]
+    if len(names) != 1:
+        raise AnalysisError(f"fjsp.parser.write_one: expected one file-name f-string, found {len(names)}")
+    first = [v for v in names[0].values if isinstance(v, ast.FormattedValue)][0]
+    leading = names[0].values[0] is first
+    txt = ast.unparse(first.value)
+    spec = ast.unparse(first.format_spec) if first.format_spec is not None else ""
+    padded = ".rjust(" in txt or ".zfill(" in txt or ("0" in spec and any(ch.isdigit() for ch in spec.replace("0", "", 1)))
+    ctx.ob("C19.i", "fjsp.parser.write_one:file-names-sort-in-instance-order", leading and padded, fw.loc,
+           f"file name starts with the instance number: {leading}; zero-padded ({txt[:40]}{(':' + spec) if spec else ''}): {padded}" +
+           ("" if leading and padded else " -- with ten or more instances the sorted directory listing is not the order of writing"),
+           construct="fjsp.parser.write_one:name-padding")
+    # (2)
+    rc = ctx.repo.get_class("rl4co/models/rl/reinforce/reinforce.py", "REINFORCE")
+    fm = rc.methods.get("set_decode_type_multistart")
+    if fm is None:
+        raise AnalysisError("REINFORCE.set_decode_type_multistart not found")
+    ctx.fn(fm)
+    par = {}
+    for a in ast.walk(fm.node):
+        for c in ast.iter_child_nodes(a):
+            par[c] = a
+    sets = [c for c in ast.walk(fm.node) if isinstance(c, ast.Call) and getattr(c.func, "id", "") == "setattr" and any(isinstance(x, ast.JoinedStr) and any(isinstance(v, ast.Constant) and "multistart" in str(v.value) for v in x.values) for x in c.args)]
+    if len(sets) != 1:
+        raise AnalysisError(f"REINFORCE.set_decode_type_multistart: expected one setattr(..., f'multistart_...'), found {len(sets)}")
+
+    def excludes_prefixed(t, taken):
+        """`t evaluating to <taken>` implies that "multistart" is NOT in the current value"""
+        if isinstance(t, ast.UnaryOp) and isinstance(t.op, ast.Not):
+            return excludes_prefixed(t.operand, not taken)
+        if isinstance(t, ast.Compare) and len(t.ops) == 1 and isinstance(t.left, ast.Constant) and "multistart" in str(t.left.value):
+            return (isinstance(t.ops[0], ast.In) and not taken) or (isinstance(t.ops[0], ast.NotIn) and taken)
+        if isinstance(t, ast.Call) and isinstance(t.func, ast.Attribute) and t.func.attr == "startswith" and t.args and isinstance(t.args[0], ast.Constant) and "multistart" in str(t.args[0].value):
+            return not taken
+        if isinstance(t, ast.BoolOp) and isinstance(t.op, ast.And) and taken:
+            return any(excludes_prefixed(v, True) for v in t.values)
+        if isinstance(t, ast.BoolOp) and isinstance(t.op, ast.Or) and not taken:
+            return any(excludes_prefixed(v, False) for v in t.values)
+        return False
+    guarded = False
+    x = sets[0]
+    while x in par:
+        p_ = par[x]
+        if isinstance(p_, ast.If):
+            if any(x is b for b in p_.body) and excludes_prefixed(p_.test, True):
+                guarded = True
+            if any(x is b for b in p_.orelse) and excludes_prefixed(p_.test, False):
+                guarded = True
+        x = p_
+    # an early `return` under `"multistart" in value` in front of the setattr is the other accepted form
+    if not guarded:
+        stmt = sets[0]
+        while par.get(stmt) is not fm.node and stmt in par:
+            stmt = par[stmt]
+        if stmt in fm.node.body:
+            for st in fm.node.body[:fm.node.body.index(stmt)]:
+                if isinstance(st, ast.If) and excludes_prefixed(st.test, False) and any(isinstance(r, ast.Return) for r in st.body):
+                    guarded = True
+    ctx.ob("C19.i", "REINFORCE.set_decode_type_multistart:idempotent", guarded, fm.loc,
+           f"the `multistart_` prefix is added only when the decode type does not carry it yet: {guarded}" +
+           ("" if guarded else " -- a policy restored from a checkpoint gets `multistart_multistart_*`, an unknown decode type that silently falls back to sampling"),
+           construct="REINFORCE.set_decode_type_multistart:prefix-twice")
+    # (3)
+    base = ctx.repo.get_class("rl4co/envs/common/base.py", "RL4COEnvBase")
+    fd = base.methods.get("dataset")
+    ctx.fn(fd)
+    pn = "filename"
+    if pn not in fd.params():
+        raise AnalysisError("RL4COEnvBase.dataset: no `filename` parameter")
+    joined = [c for c in ast.walk(fd.node) if isinstance(c, ast.Call) and ast.unparse(c.func).split(".")[-1] in ("pjoin", "join") and any(isinstance(a, ast.Name) and a.id == pn for a in c.args)]
+    ctx.ob("C19.i", "RL4COEnvBase.dataset:explicit-file-name-used-as-given", not joined, fd.loc,
+           "an explicit `filename` is passed to the loader unchanged" if not joined else
+           f"`{ast.unparse(joined[0])[:60]}`: the explicit file name is joined with a directory again -- callers pass the path generate_dataset returned; the missing file is silently replaced by generated instances",
+           construct="RL4COEnvBase.dataset:filename-rejoined")
 
 
 def no_memoised_readers(ctx: Ctx):
